@@ -171,6 +171,142 @@ theorem chunking_irrelevant (c : Cfg) (H : List Nat → D) (h : Hdr D) (f1 f2 : 
     (h1 : stream c H h f1 ch1 = .ok s1) (h2 : stream c H h f2 ch2 = .ok s2) : s1.down = s2.down := by
   rw [(stored_implies_valid c H h f1 ch1 s1 hp h1).2.2.1, (stored_implies_valid c H h f2 ch2 s2 hp h2).2.2.1, he]
 
+/-! ### Authentication does not depend on what the node validated before (shared session-token cache) -/
+
+/-- every cached verdict is the verdict of the token it is cached for -/
+def CacheOK (T : Nat → Tok) (c : Cache) : Prop := ∀ e ∈ c, e.2 = (T e.1).sigValid
+
+theorem cacheOK_nil (T : Nat → Tok) : CacheOK T [] := by intro e he; cases he
+
+theorem lookup_mem_cache : ∀ (c : Cache) (k : Nat) (v : Bool), c.lookup k = some v → (k, v) ∈ c := by
+  intro c
+  induction c with
+  | nil => intro k v h; simp at h
+  | cons a l ih =>
+    intro k v h
+    obtain ⟨a1, a2⟩ := a
+    rw [List.lookup_cons] at h
+    by_cases e : k == a1
+    · simp only [e] at h
+      have : k = a1 := by simpa using e
+      subst this
+      simp only [Option.some.injEq] at h
+      subst h
+      exact List.mem_cons_self
+    · simp only [e] at h
+      exact List.mem_cons_of_mem _ (ih k v h)
+
+/-- the memoised token check answers exactly what the token check would answer, whatever is cached, for every
+capacity (eviction included), and keeps the cache truthful -/
+theorem cacheAuth_sound (T : Nat → Tok) (cap : Nat) (c : Cache) (k : Nat) (h : CacheOK T c) :
+    (cacheAuth cap c k (T k).sigValid).2 = (T k).sigValid ∧ CacheOK T (cacheAuth cap c k (T k).sigValid).1 := by
+  unfold cacheAuth
+  cases hl : c.lookup k with
+  | some v =>
+    have hm := lookup_mem_cache c k v hl
+    have hv : v = (T k).sigValid := h _ hm
+    refine ⟨hv, ?_⟩
+    intro e he
+    rcases List.mem_cons.mp he with he | he
+    · subst he; exact hv
+    · exact h e (List.mem_of_mem_filter he)
+  | none =>
+    refine ⟨rfl, ?_⟩
+    intro e he
+    have he' := List.mem_of_mem_take he
+    rcases List.mem_cons.mp he' with he' | he'
+    · subst he'; rfl
+    · exact h e he'
+
+/-- **One object.** With a truthful cache the verdict of `AuthenticateObject` is the verdict a node that has never
+seen any token would give, and the cache stays truthful. -/
+theorem auth_verdict_cache_independent (T : Nat → Tok) (cap : Nat) (c : Cache) (o : AObj) (h : CacheOK T c) :
+    (authenticate T cap c o).2 = (authenticate T 0 [] o).2 ∧ CacheOK T (authenticate T cap c o).1 := by
+  unfold authenticate
+  cases ht : o.tok with
+  | none =>
+    simp only
+    split_ifs <;> exact ⟨rfl, h⟩
+  | some k =>
+    simp only
+    obtain ⟨h1, h2⟩ := cacheAuth_sound T cap c k h
+    obtain ⟨h3, _⟩ := cacheAuth_sound T 0 [] k (cacheOK_nil T)
+    by_cases hs : ((T k).subject != o.signer) = true
+    · simp only [hs, if_true]; exact ⟨trivial, h⟩
+    · simp only [hs, if_false, h1, h3, Bool.false_eq_true]
+      split_ifs <;> exact ⟨rfl, h2⟩
+
+/-- **Sequences.** Whatever objects (with whatever tokens, V1 or V2, authentic or not, for whatever owners) one
+validator with one shared cache of any capacity has validated before, the verdict of every object of a sequence
+is the verdict it gets from a fresh validator: validation has no memory. -/
+theorem authSeq_history_independent (T : Nat → Tok) (cap : Nat) : ∀ (objs : List AObj) (c : Cache), CacheOK T c →
+    authSeq T cap c objs = objs.map fun o => (authenticate T 0 [] o).2 := by
+  intro objs
+  induction objs with
+  | nil => intro c _; rfl
+  | cons o os ih =>
+    intro c h
+    obtain ⟨h1, h2⟩ := auth_verdict_cache_independent T cap c o h
+    simp only [authSeq, List.map_cons, h1, ih _ h2]
+
+/-- the verdict of the last object does not depend on the history before it -/
+theorem auth_last_verdict_history_independent (T : Nat → Tok) (cap : Nat) (hist : List AObj) (o : AObj) :
+    authSeq T cap [] (hist ++ [o]) = authSeq T cap [] hist ++ [(authenticate T 0 [] o).2] := by
+  rw [authSeq_history_independent T cap _ [] (cacheOK_nil T), authSeq_history_independent T cap _ [] (cacheOK_nil T)]
+  simp
+
+/-- **An accepted object is bound to its owner**, after any history: its signature verifies, and either the owner
+signed it, or it carries an authentic session token issued BY THE OWNER for the signing key. -/
+theorem authenticated_owner_bound (T : Nat → Tok) (cap : Nat) (hist : List AObj) (o : AObj)
+    (h : (authSeq T cap [] (hist ++ [o])).getLast? = some none) :
+    o.sigOk = true ∧
+      match o.tok with
+      | none => o.signer = o.owner
+      | some k => (T k).sigValid = true ∧ (T k).subject = o.signer ∧ (T k).issuer = o.owner := by
+  rw [auth_last_verdict_history_independent] at h
+  simp only [List.getLast?_append, List.getLast?_singleton, Option.some_or, Option.some.injEq] at h
+  unfold authenticate at h
+  cases ht : o.tok with
+  | none =>
+    rw [ht] at h
+    simp only at h
+    split_ifs at h with a b
+    simp only [Bool.not_eq_true, Bool.not_eq_eq_eq_not, Bool.not_true] at a
+    exact ⟨by simpa using a, by simpa using b⟩
+  | some k =>
+    rw [ht] at h
+    simp only [cacheAuth, List.lookup_nil, List.take_zero] at h
+    cases h1 : ((T k).subject != o.signer) <;> simp only [h1, Bool.false_eq_true, if_false, if_true, reduceCtorEq] at h
+    cases h2 : (T k).sigValid <;> simp only [h2, Bool.not_true, Bool.not_false, Bool.false_eq_true, if_false, if_true, reduceCtorEq] at h
+    cases h3 : ((T k).issuer != o.owner) <;> simp only [h3, Bool.false_eq_true, if_false, if_true, reduceCtorEq] at h
+    cases h4 : o.sigOk <;> simp only [h4, Bool.not_true, Bool.not_false, Bool.false_eq_true, if_false, if_true, reduceCtorEq] at h
+    exact ⟨rfl, h2, by simpa using h1, by simpa using h3⟩
+
+/-! ### Nothing with an invalid format (header or content) reaches a node's local storage -/
+
+/-- **Every entry point.** Whatever the object type and however the request enters the cluster (PUT at a container
+node for the network or local-only, PUT at a node outside the container that forwards it, `Replicate`): a node
+whose local storage received the object had the header AND the type-specific content validated. -/
+theorem stored_implies_format_valid (r : Route) (nodeSeals : Bool) (o : EObj) (n : Nat) (h : n ∈ (cluster r nodeSeals o).2) :
+    o.hdrOk = true ∧ o.contentOk = true := by
+  obtain ⟨typ, hdrOk, contentOk⟩ := o
+  cases r <;> cases nodeSeals <;> cases typ <;> cases hdrOk <;> cases contentOk <;>
+    simp [cluster, putChecks, closeChecks, replicateChecks, okNodes] at h ⊢
+
+/-- the sender is told `ok` only if a container node stored the object (except for the refused route) -/
+theorem cluster_ok_implies_stored (r : Route) (nodeSeals : Bool) (o : EObj) (h : (cluster r nodeSeals o).1 = .ok ()) :
+    r = .relayLocal ∨ (cluster r nodeSeals o).2 ≠ [] := by
+  obtain ⟨typ, hdrOk, contentOk⟩ := o
+  cases r <;> cases nodeSeals <;> cases typ <;> cases hdrOk <;> cases contentOk <;>
+    simp [cluster, putChecks, closeChecks, replicateChecks, okNodes] at h ⊢
+
+/-- a node outside the container may skip the content check of a tombstone or link only because it stores nothing -/
+theorem outsider_stores_nothing (nodeSeals : Bool) (o : EObj) :
+    3 ∉ (cluster .relay nodeSeals o).2 ∧ (cluster .relayLocal nodeSeals o).2 = [] := by
+  obtain ⟨typ, hdrOk, contentOk⟩ := o
+  cases nodeSeals <;> cases typ <;> cases hdrOk <;> cases contentOk <;>
+    simp [cluster, putChecks, closeChecks, replicateChecks, okNodes]
+
 /-! ### Non-vacuity -/
 
 private def goodHdr (size : Nat) (p : List Nat) : Hdr (List Nat) :=
@@ -189,5 +325,22 @@ example : verdict (stream cfg0 id (goodHdr 3 [1, 2, 3]) 0 [[1, 2], [3, 4]]) = so
 example : verdict (stream cfg0 id (goodHdr 3 [1, 2, 4]) 0 [[1, 2, 3]]) = some (2, .checksum) := by decide
 example : verdict (stream cfg0 id { goodHdr 3 [1, 2, 3] with sigOk := false } 0 [[1, 2, 3]]) = some (0, .format) := by decide
 example : verdict (stream { cfg0 with unprep := true } id (goodHdr 0 []) 2 [[1], [2]]) = some (2, .down) := by decide
+
+private def tokTable : Nat → Tok
+  | 1 => { issuer := 1, subject := 3, sigValid := true }    -- Alice's session for the gateway key
+  | 2 => { issuer := 2, subject := 3, sigValid := true }    -- Bob's
+  | _ => { issuer := 1, subject := 3, sigValid := false }   -- forged token
+
+/-- a legit object of Alice's session, then the same token on an object owned by Bob, then the legit one again -/
+example : authSeq tokTable 2 []
+    [{ owner := 1, signer := 3, sigOk := true, tok := some 1 }, { owner := 2, signer := 3, sigOk := true, tok := some 1 },
+     { owner := 1, signer := 3, sigOk := true, tok := some 1 }] = [none, some .sessionOwner, none] := by decide
+example : authSeq tokTable 1 []
+    [{ owner := 1, signer := 3, sigOk := true, tok := some 9 }, { owner := 2, signer := 3, sigOk := true, tok := some 2 },
+     { owner := 1, signer := 1, sigOk := true, tok := none }] = [some .sessionToken, none, none] := by decide
+example : cluster .relay false { typ := .tombstone, hdrOk := true, contentOk := false } = (.error .fail, []) := by decide
+example : cluster .relay false { typ := .tombstone, hdrOk := true, contentOk := true } = (.ok (), [1, 2]) := by decide
+example : cluster .replicate false { typ := .link, hdrOk := true, contentOk := false } = (.error .content, []) := by decide
+example : cluster .putLocal true { typ := .regular, hdrOk := true, contentOk := true } = (.ok (), [1, 2]) := by decide
 
 end NeoFS.Validate
